@@ -10,7 +10,7 @@ From Mos Require Import Str Xml Outcome Seq Elements Classify Messages.
 Definition ckey (tag idtag : str) (x : xml) : kres str :=
   if has_tag tag x then
     match find idtag (kids_of x) with
-    | None => KBad                      (* child.find('<tag>ID').text on None *)
+    | None => KKey None                 (* no ID tag: find_child passes over it; it has no ID *)
     | Some e => KKey (text_of e)
     end
   else KOther.
